@@ -49,6 +49,38 @@ fn candidates(sc: &Scenario) -> Vec<Scenario> {
             }
         }
     }
+    // schedules: fewer preemptions
+    for (i, s) in sc.steps.iter().enumerate() {
+        if let Step::Race { actors, schedule: crate::sim::Schedule::Explicit(list) } = s {
+            // segment boundaries
+            let mut bounds = vec![0usize];
+            for j in 1..list.len() {
+                if list[j] != list[j - 1] {
+                    bounds.push(j);
+                }
+            }
+            bounds.push(list.len());
+            // merge segment k into its successor's far side: [..a..][..b..][..a..] -> [..b..][..a..a..]
+            for k in 0..bounds.len().saturating_sub(2) {
+                let (s0, s1, s2) = (bounds[k], bounds[k + 1], bounds[k + 2]);
+                let mut v = list[..s0].to_vec();
+                v.extend_from_slice(&list[s1..s2]);
+                v.extend_from_slice(&list[s0..s1]);
+                v.extend_from_slice(&list[s2..]);
+                let mut c = sc.clone();
+                c.steps[i] = Step::Race { actors: actors.clone(), schedule: crate::sim::Schedule::Explicit(v) };
+                out.push(c);
+            }
+            // truncate at a boundary (the rest runs lowest-id-first)
+            for b in bounds.iter().rev().skip(1) {
+                if *b > 0 && *b < list.len() {
+                    let mut c = sc.clone();
+                    c.steps[i] = Step::Race { actors: actors.clone(), schedule: crate::sim::Schedule::Explicit(list[..*b].to_vec()) };
+                    out.push(c);
+                }
+            }
+        }
+    }
     // environment: sorted listings, no delays
     if sc.env.list_order != ListOrder::Sorted {
         let mut c = sc.clone();
